@@ -102,7 +102,7 @@ func init() {
 
 	c12 := &Property{ID: "C12", Pkgs: []string{"client/setec"}, Bounds: map[string]string{"names": "2 / 3"}}
 	c12.Harnesses = append(c12.Harnesses,
-		ch("verifHarnessC12ApplyUpdates", map[string]int{"names": 2}, map[string]int{"names": 3}, []string{"end"}, "applyUpdates with an arbitrary update set: invariant J, lock set, handles keep their names, values replaced never mutated"),
+		ch("verifHarnessC12ApplyUpdates", map[string]int{"names": 2}, map[string]int{"names": 3}, []string{"end", "end-watched-updated"}, "applyUpdates with an arbitrary update set: invariant J, lock set, handles keep their names, values replaced never mutated"),
 		ch("verifHarnessC19HandleStamps", map[string]int{"names": 2}, map[string]int{"names": 3}, []string{"end-known"}, "a handle call returns its own installed bytes, sends no request, releases the lock"),
 		ch("verifHarnessC12HandleSeesInstall", map[string]int{"names": 2}, map[string]int{"names": 3}, []string{"end"}, "a handle obtained earlier returns each newly installed value, in install order, without any request"),
 		ch("verifHarnessC12Close", map[string]int{"names": 2}, map[string]int{"names": 3}, []string{"end"}, "Close cancels the poller and returns; handles keep serving afterwards"),
